@@ -7,6 +7,7 @@ import (
 	"io"
 	"reflect"
 	"testing"
+	"time"
 
 	"github.com/ClickHouse/ch-go"
 	"github.com/ClickHouse/ch-go/proto"
@@ -285,6 +286,12 @@ func runC09(t *testing.T, c *choice.Stream, r *Result, opt RunOpt) {
 		conn := e.W.NewConn(srv)
 		HangJudge(e, r, conn, srv, cf.ServerRev)
 		conn.Window = c.Pick("window", 0, 0, 32, 512)
+		if conn.Window > 0 && c.Bool("peer.pause", 1, 3) {
+			// a server too busy to read for a while, longer than the client's read
+			// timeout: the sender sits in Write meanwhile, and nothing is wrong
+			conn.PauseReadAt = c.Range("peer.pause.at", 150, 3000)
+			conn.PauseFor = []time.Duration{cf.EffReadTimeout() / 2, cf.EffReadTimeout() * 3 / 2, cf.EffReadTimeout() * 4}[c.Draw("peer.pause.for", 3)]
+		}
 		var opNames []string
 		for _, op := range ops {
 			opNames = append(opNames, op.Op)
